@@ -85,8 +85,8 @@ where
 
 fn pw_leaf<T>(ends: &[f64], cx: &mut Cx) -> Verdict
 where
-    T: Nums + HasDerivative + Copy,
-    Der<T>: Nums + Evaluate + Translate,
+    T: Nums + HasDerivative + Copy + PartialEq + std::fmt::Debug + Evaluate,
+    Der<T>: Nums + Evaluate + Translate + PartialEq + std::fmt::Debug + Copy,
 {
     let pw: Piecewise<T> = Piecewise {
         segments: ends
@@ -101,8 +101,8 @@ where
 /// Piecewise::derivative against the pieces' own derivatives: number of pieces, every end and every number on bits
 fn pw_structure<T>(pw: &Piecewise<T>, cx: &mut Cx) -> Verdict
 where
-    T: Nums + HasDerivative + Copy,
-    Der<T>: Nums + Evaluate + Translate,
+    T: Nums + HasDerivative + Copy + PartialEq + std::fmt::Debug + Evaluate,
+    Der<T>: Nums + Evaluate + Translate + PartialEq + std::fmt::Debug + Copy,
 {
     let ends: Vec<f64> = pw.segments.iter().map(|s| s.end).collect();
     let ends = &ends[..];
@@ -162,7 +162,10 @@ pub fn check(thorough: bool, _seed: u64) -> Check {
                 if dy(b).mul_i(k as i64).cmp(&dy(f64::MAX)) == std::cmp::Ordering::Greater {
                     b = exact::pred(b); // MAX/k rounded up: keep the largest c whose exact product k*c is finite
                 }
-                let vals = [b, -b, exact::pred(b), b * 0.9375, f64::MAX / (k + 1.0), f64::MIN_POSITIVE, -f64::MIN_POSITIVE * 1.5, 5e-324 * k, f64::MAX / (k + 0.5), -f64::MAX / (k + 0.5)];
+                // ... and whole numbers around the limits of the integer types (2^31, 2^32, 2^53, 2^62, 2^63/k, 2^63, 2^64)
+                let i63k = (9223372036854775808.0f64 / k).ceil();
+                let vals = [b, -b, exact::pred(b), b * 0.9375, f64::MAX / (k + 1.0), f64::MIN_POSITIVE, -f64::MIN_POSITIVE * 1.5, 5e-324 * k, f64::MAX / (k + 0.5), -f64::MAX / (k + 0.5),
+                    2147483648.0, -4294967296.0, 9007199254740992.0, 4611686018427387904.0, i63k, -i63k, exact::succ(i63k), 4e18, -6e18, 9223372036854775808.0, -9223372036854775808.0, 18446744073709551616.0, 16777217.0];
                 let mut v = LANE_ID[..n].to_vec();
                 v[lane] = vals[cx.choose(vals.len())];
                 v
@@ -180,7 +183,7 @@ pub fn check(thorough: bool, _seed: u64) -> Check {
             by_degree!(unit, leaf(&c, cx))
         }),
         classes: vec![("degree_0", true), ("degree>=1", true)],
-        bounds: json!({"degrees": "0..8", "coefficients": format!("lane-identifier vector (also scaled by 2^-60, 2^40, 3e6, 1e-7); every lane swept through the overflow boundary MAX/k of its factor, its neighbours, MAX/7.5, MIN_POSITIVE and subnormals + cube over the first w of {{0,1,-1,0.1,-1/3,7.25e5,pi,1e-9}}: w=8 up to degree 5, w={} above", if thorough {6} else {4}),
+        bounds: json!({"degrees": "0..8", "coefficients": format!("lane-identifier vector (also scaled by 2^-60, 2^40, 3e6, 1e-7); every lane swept through the overflow boundary MAX/k of its factor, its neighbours, MAX/7.5, MIN_POSITIVE, subnormals and whole numbers at the integer-type limits (2^31, 2^32, 2^53, 2^62, 2^63/k, 2^63, 2^64) + cube over the first w of {{0,1,-1,0.1,-1/3,7.25e5,pi,1e-9}}: w=8 up to degree 5, w={} above", if thorough {6} else {4}),
             "arguments": "{-2.5,0.3,7,0}", "oracle": "exact dyadic (i+1)*c_(i+1)"}),
     };
     let mut sh = shapes(&[1.0, 2.0, 3.0, 4.0], 4);
